@@ -74,6 +74,8 @@ def units(ctx, prop):
             for spec in fam2:
                 for st in range(len(STRETCH)):
                     us.append(("rect", prop, spec, 2, sc, st, ctx.seed, ctx.thorough))
+                if prop == "C09":
+                    us.append(("rect", prop, spec, 2, sc, 0, ctx.seed, ctx.thorough, 1))  # far translation (numpy predicate)
         for spec in fam3:
             us.append(("rect", prop, spec, 3, scs[0], 0, ctx.seed, ctx.thorough))
         # ellipsoids (2-D): K SOCPs per call -> smaller family in quick
@@ -129,7 +131,7 @@ def tau_numpy(*arrays):
     return oracles.tau_for(*arrays) * 1e-4
 
 
-def rect_case(prop, spec, m, sc, st, seed, i1, i2, slabel, res, n_lat):
+def rect_case(prop, spec, m, sc, st, seed, i1, i2, slabel, res, n_lat, far=0):
     """execute one (pair, slack) case; returns violation or None"""
     from vopy.confidence_region import confidence_region_is_covered, confidence_region_is_dominated
 
@@ -137,15 +139,16 @@ def rect_case(prop, spec, m, sc, st, seed, i1, i2, slabel, res, n_lat):
     W = order.ordering_cone.W
     intW = bool(np.all(W == np.round(W)))
     rects = lattice.rectangles(m, n_lat, degenerate=False)
-    off = _offset(seed, m, sc)
+    off = _offset(seed, m, sc, far)
     stretch = STRETCH[st] if m == 2 else (1.0,) * m
     l1, u1 = embed(*rects[i1], sc, off, stretch)
     l2, u2 = embed(*rects[i2], sc, off, stretch)
     slack = dict(slack_forms(prop, W, sc, "rect"))[slabel]
-    tau = oracles.tau_for(l1, u1, l2, u2)
+    # is_dominated is plain numpy (tight tolerance); is_covered goes through an LP solver
+    tau = tau_numpy(l1, u1, l2, u2) if prop == "C09" else oracles.tau_for(l1, u1, l2, u2)
     R1, R2 = _mk_rect(l1, u1), _mk_rect(l2, u2)
     case = {"mode": "rect", "prop": prop, "spec": spec, "m": m, "sc": sc, "st": st, "seed": seed, "i1": i1, "i2": i2,
-            "slack": slabel, "n_lat": n_lat}
+            "slack": slabel, "n_lat": n_lat, "far": far}
     res["evaluations"] += 1
     if prop == "C09":
         got = bool(np.all(confidence_region_is_dominated(order, R1, R2, slack)))
@@ -180,7 +183,8 @@ def rect_case(prop, spec, m, sc, st, seed, i1, i2, slabel, res, n_lat):
 
 
 def run_rect(unit, res, only=None):
-    _, prop, spec, m, sc, st, seed, thorough = unit
+    _, prop, spec, m, sc, st, seed, thorough = unit[:8]
+    far = unit[8] if len(unit) > 8 else 0
     core.import_vopy()
     order = cones.make_order(spec)
     W = order.ordering_cone.W
@@ -205,7 +209,7 @@ def run_rect(unit, res, only=None):
     for i1 in i1s:
         for i2 in i2s:
             for sl in labels:
-                v = rect_case(prop, spec, m, sc, st, seed, i1, i2, sl, res, n_lat)
+                v = rect_case(prop, spec, m, sc, st, seed, i1, i2, sl, res, n_lat, far)
                 if v is not None:
                     res["violations"].append(v)
                     nv += 1
@@ -432,7 +436,7 @@ def replay_case(case):
     v = None
     if case["mode"] == "rect":
         v = rect_case(case["prop"], _spec(case["spec"]), case["m"], case["sc"], case["st"], case["seed"], case["i1"], case["i2"],
-                      case["slack"], res, case["n_lat"])
+                      case["slack"], res, case["n_lat"], case.get("far", 0))
     elif case["mode"] == "ell":
         v = ell_case(case["prop"], _spec(case["spec"]), case["sc"], case["sh1"], case["seed"], case["r1"], case["cx"], case["cy"],
                      case["sh2"], case["r2"], case["slack"], res)
